@@ -50,6 +50,8 @@ MC = [
     # the design before the repair (rules replaced only when the id changes) must break the Rules clause on those
     ("MC_KeyKeeper", "KeyKeeper_emptyid.cfg", "Converged", None),
     ("MC_KeyKeeper", "KeyKeeper_sameid.cfg", "Converged", None),
+    # ... and the design in which they are replaced when id or mode change breaks it when only the content changes
+    ("MC_KeyKeeper", "KeyKeeper_samecontent.cfg", "Converged", None),
 ]
 
 
@@ -164,6 +166,8 @@ def classify(kind, trace_rows, verdict):
                     cls = "empty-rule-id"
                 elif want["id"] == got["id"] and want["mode"] != got["mode"]:
                     cls = "same-id-different-mode"
+                elif want["id"] == got["id"] and want["mode"] == got["mode"] and want.get("c") != got.get("c"):
+                    cls = "same-id-same-mode-different-content"
                 break
     return {"broken": broken, "kind": cls}
 
